@@ -73,7 +73,7 @@ def run_units(units, seed, twin=False):
     results = {}
     fam_items = {}
 
-    def one(u):
+    def first(u):
         try:
             return runner.verify_unit(u, seed=seed)
         except Undecided as e:
@@ -83,6 +83,31 @@ def run_units(units, seed, twin=False):
             from assemble import load_unit
             base = load_unit(u).get("rlimit") or 30
             return runner.verify_unit(u, seed=seed, rlimit=2 * base)
+
+    def one(u):
+        r = first(u)
+        if r["failures"] and not twin:
+            from assemble import load_unit
+            cfg = load_unit(u)
+            wide_fns = sorted({f["fn"] for f in r["failures"] if f.get("fn")})
+            if wide_fns and all(f.get("fn") for f in r["failures"]):
+                # An obligation failed with the everyday axiom set.  Before calling that a failure, the same text is verified once
+                # more with the unit's wider algebra axioms in scope inside the functions that failed: code that re-associates a
+                # product or writes `a - b` as `a + (-b)` computes the same value, and only this second stage can see it.  A
+                # complete second-stage proof IS a proof (all of these axioms are listed assumptions either way); anything else
+                # leaves the first verdict standing.
+                bw = cfg.get("broadcast_wide") or []
+                stages = len(bw) if bw and isinstance(bw[0], list) else 1
+                for k in range(1, stages + 1):
+                    try:
+                        r2 = runner.verify_unit(u, seed=seed, wide=k, wide_fns=wide_fns)
+                        if not r2["failures"]:
+                            r2["notes"] = list(r2.get("notes", [])) + [{"wide_axioms_used": k, "in_functions": wide_fns, "first_stage_failed": sorted({f["label"] for f in r["failures"]})}]
+                            r2["wide"] = k
+                            return r2
+                    except Undecided:
+                        pass
+        return r
 
     with cf.ThreadPoolExecutor(max_workers=min(16, max(1, len(units)))) as ex:
         futs = {ex.submit(one, u): u for u in units}
